@@ -222,7 +222,8 @@ def call_target(case, env):
         fn = getattr(owner, parts[-1])
     else:
         fn = raw
-    sig = [p for p in inspect.signature(fn).parameters]
+    params = inspect.signature(fn).parameters
+    sig = [p for p, q in params.items() if q.kind in (q.POSITIONAL_ONLY, q.POSITIONAL_OR_KEYWORD)]
     args = []
     for nm in sig:
         if nm in env:
@@ -230,6 +231,11 @@ def call_target(case, env):
         else:
             break
     kwargs = {k: env[k] for k in case.get('kwargs', []) if k in env and k not in sig[:len(args)]}
+    for p, q in params.items():
+        if q.kind == q.VAR_POSITIONAL and p in env:
+            args.extend(env[p])
+        if q.kind == q.VAR_KEYWORD and p in env:
+            kwargs.update(env[p])
     return fn(*args, **kwargs)
 
 
